@@ -372,6 +372,65 @@ func checkLocationParser(c *Ctx, pl *ssa.Function) {
 					stt = unknown
 				}
 			}
+			// NESTING: operands are cut at commas outside ALL parentheses: the nesting state is a counter
+			if inLoop(st.Block()) {
+				if entry := loopBodyEntry(st.Block()); entry != nil {
+					lpc := pathCond(ftb, entry, st.Block())
+					nst, nwhy := unknown, "no test of a nesting-depth variable guards the cut at ','"
+					sawComma := false
+					for _, at := range lpc.atoms() {
+						t := at.Atom
+						if t.isBin("==") {
+							for k := 0; k < 2; k++ {
+								if n, ok := t.Args[k].constInt(); ok && n == ',' && stripConv(t.Args[1-k]).Op == "index" {
+									sawComma = true
+								}
+							}
+						}
+					}
+					for _, at := range lpc.atoms() {
+						t := at.Atom
+						var v *Term
+						switch {
+						case t.Op == "phi" && t.Cyc:
+							v = t
+						case t.isBin("==") && t.Args[0].isConst("0") && t.Args[1].Op == "phi" && t.Args[1].Cyc:
+							v = t.Args[1]
+						case t.isBin("==") && t.Args[1].isConst("0") && t.Args[0].Op == "phi" && t.Args[0].Cyc:
+							v = t.Args[0]
+						}
+						if v == nil || !sawComma {
+							continue
+						}
+						ph, ok := v.V.(*ssa.Phi)
+						if !ok {
+							continue
+						}
+						if tname(ph.Type()) == "bool" {
+							nst, nwhy = broken, "the state that tells whether a ',' lies inside parentheses is a boolean flag: it is cleared by the first ')', so in an operand nested two levels deep (join(join(complement(a),b),c)) a later ',' is taken for a top-level separator and the operand is cut into unbalanced pieces"
+							continue
+						}
+						up, down := false, false
+						for _, cb := range additive(ftb, ph) {
+							if cb.T.isConst("1") && !cb.Neg {
+								up = true
+							}
+							if cb.T.isConst("1") && cb.Neg {
+								down = true
+							}
+						}
+						switch {
+						case up && down:
+							nst = holds
+						case up || down:
+							nst, nwhy = broken, "the nesting depth is only ever "+map[bool]string{true: "increased", false: "decreased"}[up]+": after the first parenthesised operand every ',' is (or none is) taken as inside parentheses"
+						}
+					}
+					if sawComma {
+						c.judge(nst, "ARITY", "join operands cut at commas outside all parentheses", st.Pos(), "a depth counter (+1 at '(', -1 at ')') must be 0 where an operand is cut", nwhy)
+					}
+				}
+			}
 			c.judge(stt, "ARITY", fmt.Sprintf("join operands appended in a loop (%s)", c.W.pos(st.Pos())[strings.LastIndex(c.W.pos(st.Pos()), "/")+1:]), st.Pos(), "operands are appended in a loop over the operand list", fmt.Sprintf("this branch appends a fixed number of operands (%d) outside any loop: joins with more operands, or with a parenthesised operand that is not first, are mis-parsed or panic", n))
 		})
 	}
@@ -382,6 +441,43 @@ func checkLocationParser(c *Ctx, pl *ssa.Function) {
 
 func checkLocationEvaluator(c *Ctx, gsq, ev *ssa.Function) {
 	fam := family(ev)
+	// a strand flag pushed down the recursion must be TOGGLED by every complement (XOR), not accumulated (OR)
+	for _, f := range fam {
+		for k, p := range f.Params {
+			if tname(p.Type()) != "bool" {
+				continue
+			}
+			ftb := newTB(f)
+			eachInstr(f, func(i ssa.Instruction) {
+				call, ok := i.(*ssa.Call)
+				if !ok || call.Call.StaticCallee() != f || k >= len(call.Call.Args) {
+					return
+				}
+				arg := call.Call.Args[k]
+				t := ftb.T(arg)
+				mentionsC := t.contains(func(x *Term) bool { return x.isField("Complement") })
+				st, why := unknown, "the strand flag passed down is "+short(t.String())
+				switch {
+				case t.isBin("!=") && mentionsC && t.contains(func(x *Term) bool { return x.isParam(k) }):
+					st = holds
+				case t.Op == "phi" && mentionsC:
+					// a || b is lowered to phi(true, b)
+					hasTrue := false
+					for _, l := range phiLeaves(t) {
+						if l.isConst("true") {
+							hasTrue = true
+						}
+					}
+					if hasTrue {
+						st, why = broken, "the strand flag handed down the recursion is (flag || location.Complement): a complement nested inside a complemented location does not flip the strand back, so complement(join(a,complement(b))) reads b on the wrong strand"
+					}
+				case !mentionsC && t.isParam(k):
+					return // passed on unchanged at this site
+				}
+				c.judge(st, "TERM-EVAL", "strand flag toggles at every complement", call.Pos(), "flag != location.Complement (exclusive or)", why)
+			})
+		}
+	}
 	// COORD: slices of the parent sequence
 	nSlice := 0
 	for _, f := range fam {
